@@ -40,3 +40,25 @@ fn internal_error<S: fmt::Display>(reason: S) -> Error {
         InternalErrorKind::DataCorrupted.other(message).into()
     }
 }
+
+/// verif hook: write points.  Every database write (transaction commit, batch write, default
+/// put) announces itself here just before it is applied, so that a harness can count them and
+/// kill the process at the N-th one (`CRASH_AT`), i.e. with exactly the first N-1 writes durable.
+#[cfg(feature = "verif-hooks")]
+pub mod verif {
+    use std::sync::atomic::{AtomicU64, Ordering};
+
+    /// write points passed so far in this process
+    pub static POINTS: AtomicU64 = AtomicU64::new(0);
+    /// when non-zero, the process exits on reaching this write point (before the write)
+    pub static CRASH_AT: AtomicU64 = AtomicU64::new(0);
+
+    /// Announce a write that is about to be applied.
+    pub fn point(_kind: &'static str) {
+        let n = POINTS.fetch_add(1, Ordering::SeqCst) + 1;
+        if CRASH_AT.load(Ordering::SeqCst) == n {
+            // the moral equivalent of kill -9: no destructors, no flushes
+            unsafe { libc::_exit(86) }
+        }
+    }
+}
